@@ -34,7 +34,7 @@ def _mods(ms):
     out = []
     for m in ms:
         out.append(_mod(m))
-    return out or None
+    return out
 
 
 def _mod(m):
@@ -51,18 +51,18 @@ def _interval(iv):
 def norm_ann(a):
     internal = None
     im = a.internal_mods
+    if im is not None and not im and isinstance(im, dict):
+        internal = []        # an empty dict: kept in the dump, equal to None in comparisons
     if im:
         internal = []
         if not isinstance(im, dict):
             return ['ann-broken', norm(im)]
         for k, v in im.items():
             nv = _mods(v)
-            if nv:
-                internal.append([k, nv])
-        internal = internal or None
+            internal.append([k, nv])
     ivs = None
-    if a.intervals:
-        ivs = [_interval(iv) if isinstance(iv, _pt.Interval) else ['raw', norm(iv)] for iv in a.intervals] or None
+    if a.intervals is not None and isinstance(a.intervals, list):
+        ivs = [_interval(iv) if isinstance(iv, _pt.Interval) else ['raw', norm(iv)] for iv in a.intervals]
     return ['ann', {
         'seq': a.sequence,
         'isotope': _mods(a.isotope_mods),
@@ -164,6 +164,8 @@ def same(a, b, path='', exc_text=False):
             if tag == 'ann' or tag == 'frag':
                 for k in a[1]:
                     x, y = a[1][k], b[1].get(k)
+                    if tag == 'ann':
+                        x, y = _empty_to_none(x, k), _empty_to_none(y, k)
                     if tag == 'ann' and k in ('internal', 'intervals') and isinstance(x, list) and isinstance(y, list):
                         # the order of the residue-mod dict and of the interval list is not observable state
                         # (the dump itself keeps it, so that a rebuilt twin has the same order)
@@ -196,6 +198,19 @@ def same(a, b, path='', exc_text=False):
 
 _TAGS = {'ann', 'mod', 'raw', 'interval', 'frag', 'fmatch', 'multi', 'enzcfg', 'dict', 'list', 'tuple', 'set',
          'lazy', 'exc', 'obj', 'deep'}
+
+
+def _empty_to_none(v, field):
+    """inside an annotation an empty container and None are the same observable state (DESIGN.md section 5)"""
+    if isinstance(v, list):
+        if field == 'internal':
+            v = [kv for kv in v if not (isinstance(kv, list) and len(kv) == 2 and kv[1] == [])]
+        elif field == 'intervals':
+            v = [(iv[:4] + [None] if isinstance(iv, list) and iv and iv[0] == 'interval' and iv[4] == [] else iv)
+                 for iv in v]
+        if not v:
+            return None
+    return v
 
 
 def _ordkey(v):
@@ -262,10 +277,10 @@ def denorm(nf):
     if tag == 'ann':
         f = nf[1]
         internal = None
-        if f['internal']:
+        if f['internal'] is not None:
             internal = {k: _mk_mods(v) for k, v in f['internal']}
         ivs = None
-        if f['intervals']:
+        if f['intervals'] is not None:
             ivs = [_mk_interval(iv) if iv[0] == 'interval' else denorm(iv[1]) for iv in f['intervals']]
         return pt.create_annotation(f['seq'],
                                     isotope_mods=_mk_mods(f['isotope']),
